@@ -2,6 +2,7 @@
 //! application call log and public accessors only.
 
 pub mod access;
+pub mod dp;
 pub mod ring;
 
 use crate::world::World;
